@@ -51,7 +51,7 @@ _SB = dict(
     },
 )
 # stream-level reading of the contract: fails only if its source fails (raises clause)
-_SB["summary"] = dict(result="SHUF(stream(iterable), buffer_size)", fails_only_if="FAILS(stream(iterable))")
+_SB["summary"] = dict(exact=True, result="SHUF(stream(iterable), buffer_size)", fails_only_if="FAILS(stream(iterable))")
 contract(M, "shuffle_buffer", **_SB)
 
 # ---------------------------------------------------------------------------
@@ -81,7 +81,7 @@ _RR_INV2 = [
     "not failed()",
 ]
 contract(M, "round_robin",
-    summary=dict(result="RRS(stream(iterables), buffer_size)", fails_only_if="FAILS(stream(iterables))"),
+    summary=dict(exact=True, result="RRS(stream(iterables), buffer_size)", fails_only_if="FAILS(stream(iterables))"),
     props=["C02", "C07", "C14", "C19"],
     params={"iterables": "iter", "buffer_size": "int"},
     generator=True,
@@ -143,7 +143,7 @@ _SBA["summary"] = None
 contract(M, "shuffle_buffer_async", **_SBA)
 
 contract(M, "round_robin_async",
-    summary=dict(result="RRS(stream(iterables), buffer_size)", fails_only_if="FAILS(stream(iterables))"),
+    summary=dict(exact=True, result="RRS(stream(iterables), buffer_size)", fails_only_if="FAILS(stream(iterables))"),
     props=["C02", "C07", "C14", "C19"],
     params={"iterables": "iter", "buffer_size": "int"},
     generator=True,
